@@ -110,9 +110,9 @@ type c08Case struct {
 	desc    string
 }
 
-const c08Params = "(a:int) (b:int) (c:int) (d:int) (e:int) (g:int->int) (h:int->int->int) (p:int->bool)"
+const c08Params = "(a:int) (b:int) (c:int) (d:int) (e:int) (k:int) (g:int->int) (h:int->int->int) (p:int->bool)"
 
-var c08Atoms = []string{"a", "b", "c", "d", "e"}
+var c08Atoms = []string{"a", "b", "c", "d", "e", "k"}
 
 func atomOps(n int) []c08Operand {
 	out := make([]c08Operand, n)
@@ -150,13 +150,17 @@ func c08Generate(tier string, rng *core.Rand) []c08Case {
 		cases = append(cases, c08Case{name: fmt.Sprintf("c%d", len(cases)), body: "  " + src, want: want, wellTy: wt, kind: kind,
 			nontriv: len(ops)+pipeTail >= 2, desc: strings.ReplaceAll(src, "\n", " ⏎ ")})
 	}
-	// 1. exhaustive: every sequence of 1..4 of the 12 non-pipe operators, atomic operands
+	// 1. exhaustive: every sequence of 1..4 (1..5 in thorough) of the 12 non-pipe operators, atomic operands
+	maxExh := 4
+	if tier == "thorough" {
+		maxExh = 5
+	}
 	var rec func(ops []string)
 	rec = func(ops []string) {
 		if len(ops) > 0 {
 			add("atomic-chain", atomOps(len(ops)+1), ops, " ", 0)
 		}
-		if len(ops) == 4 {
+		if len(ops) == maxExh {
 			return
 		}
 		for _, o := range c08Ops {
@@ -414,7 +418,7 @@ func runC08(r *core.Run, tier string) {
 		}
 	}
 	r.Exhaustive(false)
-	r.Set("exhaustive_part", "all 22620 chains of 1..4 non-pipe operators over atomic operands")
+	r.Set("exhaustive_part", map[string]string{"quick": "all 22620 chains of 1..4 non-pipe operators over atomic operands", "thorough": "all 271452 chains of 1..5 non-pipe operators over atomic operands"}[tier])
 }
 
 func c08Source(c c08Case) string {
